@@ -127,7 +127,7 @@ def run(ctx):
                 rule='cycle x medium x domain x (nu_pre, nu_post) (diagonal '
                      'in quick, full 3x3 in thorough) x grid sizes; one '
                      'stand-alone multigrid solve each',
-                time_cap=ctx.budget or (150 if q else 2400), chunksize=1)
+                time_cap=ctx.budget or (600 if q else 4800), chunksize=1)
     if not q:
         cs = [dict(c, sizes=SIZES_T2) for c in configs(SIZES_T2, False)
               if c['nu'] == (2, 2)]
